@@ -41,7 +41,7 @@ func findMatches(insts []bytecode.SearchInstruction, all bool, skip int, take in
 			currentState.SUCCESS()
 		}
 		for currentState.status == INPROCESS {
-			verifTick()
+			verifTick(currentState)
 			inst := insts[currentState.programCounter]
 			currentState = matchInstruction(inst, currentState)
 			// fmt.Printf("PC: %d INST: %+v STATE: %+v\n", currentState.programCounter, inst, currentState)
